@@ -62,11 +62,38 @@ func genPMT(r *core.Rand, maxStreams int) ref.PMTSpec {
 		}
 		p.Streams = append(p.Streams, e)
 	}
-	for p.SectionLength() > 1021 && len(p.Streams) > 0 {
+	// descriptor loops of 256 bytes and more exercise the upper 4 bits of the 12-bit lengths
+	fat := func() []ref.Desc {
+		var ds []ref.Desc
+		for total := 0; total < 256; {
+			d := ref.Desc{Tag: opaqueTags[r.Intn(len(opaqueTags))], Body: r.Bytes(r.Pick(40, 100, 200, 255))}
+			if r.Chance(1, 3) {
+				d = genDesc(r)
+			}
+			ds = append(ds, d)
+			total += 2 + len(d.Body)
+		}
+		return ds
+	}
+	if len(p.Streams) > 0 && r.Chance(1, 6) {
+		i := r.Intn(len(p.Streams))
+		p.Streams[i].Descs = append(p.Streams[i].Descs, fat()...)
+	}
+	if r.Chance(1, 10) {
+		p.ProgDescs = append(p.ProgDescs, fat()...)
+	}
+	for p.SectionLength() > 1021 && len(p.Streams) > 1 {
 		p.Streams = p.Streams[:len(p.Streams)-1]
 	}
 	for p.SectionLength() > 1021 && len(p.ProgDescs) > 0 {
 		p.ProgDescs = p.ProgDescs[:len(p.ProgDescs)-1]
+	}
+	for p.SectionLength() > 1021 && len(p.Streams) > 0 {
+		if n := len(p.Streams[0].Descs); n > 0 {
+			p.Streams[0].Descs = p.Streams[0].Descs[:n-1]
+		} else {
+			p.Streams = p.Streams[1:]
+		}
 	}
 	return p
 }
